@@ -224,7 +224,14 @@ def run(res):
         rng = C.Rng(res.seed)
         ntr_g = 20 if quick else 150
         ntr_f = 20 if quick else 150
-        trials = [("guarded", gen_jobs(rng, True), rng.chance(1, 2)) for _ in range(ntr_g)] + \
+        trials = []
+        cdir = os.path.join(C.VERIF, "corpus", PROP)
+        if os.path.isdir(cdir):
+            for fn in sorted(os.listdir(cdir)):
+                if fn.endswith(".jobs.json"):
+                    cj = json.load(open(os.path.join(cdir, fn)))
+                    trials.append((cj.get("kind", "full"), cj["jobs"], bool(cj.get("register"))))
+        trials += [("guarded", gen_jobs(rng, True), rng.chance(1, 2)) for _ in range(ntr_g)] + \
                  [("full", gen_jobs(rng, False), rng.chance(1, 2)) for _ in range(ntr_f)]
 
         def one(tr):
